@@ -53,6 +53,7 @@ pub enum Alter {
 #[derive(Default)]
 struct Stats {
     alterations: u64,
+    interrupted: u64,
     open_err: u64,
     open_panic: u64,
     check_err: u64,
@@ -106,6 +107,29 @@ enum Verdict {
     CheckPanic(String),
     Repaired(usize),
     Clean(usize),
+}
+
+/// An open whose repair is aborted from the repair callback (as a crash or an operator would
+/// interrupt it). Returns the bytes the attempt left behind -- recovery may already have rewritten
+/// the header, and whatever it wrote must not make the damage certifiable afterwards -- but only
+/// when the open really ended with `RepairAborted`. An open that needed no repair succeeds, and
+/// dropping that Database is a clean close which commits: that is a different history (a damaged
+/// file used for a session, then closed), about which the property says nothing.
+fn interrupted_open(cfg: &DbCfg, img: &[u8]) -> Option<Vec<u8>> {
+    let b = RecBackend::from_image(img.to_vec(), false);
+    let b2 = b.clone();
+    let r = catch(move || {
+        let mut builder = cfg.builder();
+        builder.set_repair_callback(move |s| s.abort());
+        match builder.create_with_backend(b2) {
+            Err(redb::DatabaseError::RepairAborted) => true,
+            other => {
+                let _ = catch(move || drop(other));
+                false
+            }
+        }
+    });
+    matches!(r, Ok(true)).then(|| b.image())
 }
 
 fn probe(cfg: &DbCfg, img: Vec<u8>, commits: &[Arc<DbState>]) -> Result<Verdict, Failure> {
@@ -223,14 +247,18 @@ fn run_case(tape: &Tape, tier: Tier, trace: bool) -> (Stats, Option<Vec<String>>
             }
         }
         let mut rng = Rng::new(crate::crashchecks::crash_seed(tape));
-        let budget = tier.pick(150usize, 1200);
+        // header: every byte of the 320-byte header region in both tiers (commit slots and header
+        // fields are protected only by the slot checksums and by cross-checks at open)
         let mut alts: Vec<(Alter, &'static str)> = vec![];
-        // header sweep (sampled in quick, complete in thorough)
-        let hdr_stride = tier.pick(7usize, 1);
-        let hdr_phase = rng.below(hdr_stride);
-        for off in (hdr_phase..320).step_by(hdr_stride) {
+        for off in 0..320usize {
             let mask = [0x01u8, 0x80, 0xff][rng.below(3)];
             alts.push((Alter::Xor { off, mask }, "header"));
+            // flag-like bytes additionally cleared / set
+            if img[off] == 1 {
+                alts.push((Alter::Xor { off, mask: 0x01 }, "header"));
+            } else if img[off] == 0 && rng.chance(1, 8) {
+                alts.push((Alter::Xor { off, mask: 0x01 }, "header"));
+            }
         }
         for g in 0..8u8 {
             alts.push((Alter::GodByte(g), "header"));
@@ -238,6 +266,7 @@ fn run_case(tape: &Tape, tier: Tier, trace: bool) -> (Stats, Option<Vec<String>>
         alts.push((Alter::Truncate(ps), "header"));
         alts.push((Alter::Extend(ps), "header"));
         alts.push((Alter::Truncate(ps * hdr.region_max_pages as usize), "header"));
+        let budget = alts.len() + tier.pick(140usize, 1200);
         // pages
         while alts.len() < budget && !reachable.is_empty() {
             let (p, covered) = reachable[rng.below(reachable.len())];
@@ -291,9 +320,23 @@ fn run_case(tape: &Tape, tier: Tier, trace: bool) -> (Stats, Option<Vec<String>>
                 "checksummed" => st.in_checksummed += 1,
                 _ => st.in_slack_or_free += 1,
             }
+            // a third of the alterations are first met by an open whose repair is aborted
+            let mut interrupted = false;
+            let altered = if (class == "header" && (unclean || rng.chance(1, 2))) || rng.chance(1, 5) {
+                match interrupted_open(&cfg, &altered) {
+                    Some(after) => {
+                        interrupted = true;
+                        st.interrupted += 1;
+                        after
+                    }
+                    None => altered,
+                }
+            } else {
+                altered
+            };
             let v = probe(&cfg, altered, &commits).map_err(|mut f| {
-                f.detail = json!({"alteration": format!("{a:?}"), "position_class": class, "image": if unclean { "recovery-required" } else { "cleanly closed" }, "image_len": img.len()});
-                f.msg = format!("[{} image, alteration {a:?} ({class})] {}", if unclean { "recovery-required" } else { "cleanly closed" }, f.msg);
+                f.detail = json!({"alteration": format!("{a:?}"), "position_class": class, "image": if unclean { "recovery-required" } else { "cleanly closed" }, "image_len": img.len(), "first_open_aborted_in_repair": interrupted});
+                f.msg = format!("[{} image, alteration {a:?} ({class}){}] {}", if unclean { "recovery-required" } else { "cleanly closed" }, if interrupted { ", then an open whose repair was aborted from the repair callback" } else { "" }, f.msg);
                 f
             })?;
             match v {
@@ -356,7 +399,7 @@ impl Check for C12 {
     }
     fn plan(&self, tier: Tier) -> Plan {
         unsafe { std::env::set_var("VERIF_TIER_INTERNAL", tier.name()) };
-        Plan { cases: tier.pick(700, 12_000), max_recs: tier.pick(40, 70), max_shrink_iters: 400, workers: 16 }
+        Plan { cases: tier.pick(400, 8_000), max_recs: tier.pick(40, 70), max_shrink_iters: 400, workers: 16 }
     }
     fn run(&self, tape: &Tape, want_sample: bool) -> Result<CaseOut, Failure> {
         let (st, tr, r) = run_case(tape, tier_of_env(), want_sample);
@@ -364,6 +407,7 @@ impl Check for C12 {
         let mut out = CaseOut { evals: st.alterations.max(1), ..Default::default() };
         out.nontrivial = st.nontrivial;
         out.class_n("alterations evaluated", st.alterations);
+        out.class_n("alterations first met by an open whose repair was aborted (repair callback)", st.interrupted);
         out.class_n("alterations in header/slots", st.in_header);
         out.class_n("alterations in checksummed page bytes", st.in_checksummed);
         out.class_n("alterations in slack or free pages", st.in_slack_or_free);
